@@ -88,9 +88,9 @@ def rename (fs : Tree) (old new : Bytes) : Except String Tree :=
     if under old new && old != new then .error "EINVAL" else
     let okTarget := match get fs new with
       | none => true
-      | some .dir => n == .dir && (children fs new).isEmpty
+      | some .dir => false     -- Go's os.Rename refuses an existing directory (EEXIST) before calling rename(2)
       | some _ => n != .dir
-    if !okTarget then .error "ENOTEMPTY" else
+    if !okTarget then .error "EEXIST" else
     let fs1 := if old == new then fs else removeAll fs new
     .ok (fs1.map fun e =>
       if e.1 == old then (new, e.2)
